@@ -1915,3 +1915,8 @@ M("C05", "break-on-non-break-loop-nodes", PG,
   "            if PUMLEvent.BREAK in self.event_types:\n                blocks.append(f\"{' ' * indent}break\")",
   "            if PUMLEvent.BREAK not in self.event_types:\n                blocks.append(f\"{' ' * indent}break\")",
   "R5.6", "break emitted after every loop that is not a break point")
+
+M("C05", "occurrence-not-advanced", PG,
+  "        self.add_puml_node(node)\n        self.increment_occurrence_count(event_name)\n",
+  "        self.add_puml_node(node)\n", "R5.12",
+  "two events of one type get the same node identity")
